@@ -343,6 +343,85 @@ def extract_rebuild_items(repo):
     return rebuild, other
 
 
+def extract_fk_reference_attr(repo):
+    """In BaseEvolutionOperations.build_column_schema: the expression whose value is written as the
+    referenced column of `REFERENCES <table> (<column>)`.  `related_model._meta.pk.<attr>` gives
+    `<attr>`; any other expression is returned as source text (unknown to the model)."""
+    tree = ast.parse(_src(repo, 'django_evolution/db/common.py'))
+    cls = _find_class(tree, 'BaseEvolutionOperations')
+    fn = _find_func(cls, 'build_column_schema')
+    for n in ast.walk(fn):
+        if isinstance(n, ast.List) and n.elts and isinstance(n.elts[0], ast.Constant) and n.elts[0].value == 'REFERENCES':
+            for el in n.elts[1:]:
+                if isinstance(el, ast.BinOp) and isinstance(el.op, ast.Mod) and isinstance(el.left, ast.Constant) \
+                        and el.left.value == '(%s)' and isinstance(el.right, ast.Call) and el.right.args:
+                    expr = el.right.args[0]
+                    text = ast.unparse(expr)
+                    if text.startswith('related_model._meta.pk.') and text.count('.') == 3:
+                        return text.rsplit('.', 1)[1]
+                    return text
+    raise ExtractError('REFERENCES clause not found in BaseEvolutionOperations.build_column_schema')
+
+
+def extract_together_iteration(repo):
+    """How change_meta_unique_together / change_meta_index_together iterate over the entries they add
+    and remove: 'set' (iteration order of a Python set), 'sorted', 'declared' (order of the declared
+    list), or 'unknown'."""
+    tree = ast.parse(_src(repo, 'django_evolution/db/common.py'))
+    cls = _find_class(tree, 'BaseEvolutionOperations')
+    SET_METHODS = ('difference', 'union', 'intersection', 'symmetric_difference')
+
+    def classify(expr, fn, upto, depth=0):
+        if depth > 6:
+            return 'unknown'
+        if isinstance(expr, ast.Call):
+            f = expr.func
+            if isinstance(f, ast.Name) and f.id == 'sorted':
+                return 'sorted'
+            if isinstance(f, ast.Name) and f.id in ('set', 'frozenset'):
+                return 'set'
+            if isinstance(f, ast.Attribute) and f.attr in SET_METHODS:
+                return 'set'
+            if isinstance(f, ast.Name) and f.id in ('filter_dup_list_items', 'list', 'tuple') and expr.args:
+                return classify(expr.args[0], fn, upto, depth + 1)
+            return 'unknown'
+        if isinstance(expr, (ast.SetComp, ast.Set)):
+            return 'set'
+        if isinstance(expr, ast.BoolOp):      # `x or []`
+            kinds = [classify(v, fn, upto, depth + 1) for v in expr.values]
+            return 'set' if 'set' in kinds else ('unknown' if 'unknown' in kinds else kinds[0])
+        if isinstance(expr, (ast.List, ast.Tuple)):
+            return 'declared'
+        if isinstance(expr, ast.BinOp):
+            kinds = [classify(expr.left, fn, upto, depth + 1), classify(expr.right, fn, upto, depth + 1)]
+            return 'set' if 'set' in kinds else 'unknown'
+        if isinstance(expr, (ast.ListComp, ast.GeneratorExp)):
+            return classify(expr.generators[0].iter, fn, upto, depth + 1)
+        if isinstance(expr, ast.Name):
+            last = None
+            for n in ast.walk(fn):
+                if isinstance(n, ast.Assign) and n.lineno < upto and any(
+                        isinstance(t, ast.Name) and t.id == expr.id for t in n.targets):
+                    if last is None or n.lineno > last.lineno:
+                        last = n
+            if last is None:
+                return 'declared' if expr.id in [a.arg for a in fn.args.args] else 'unknown'
+            return classify(last.value, fn, last.lineno, depth + 1)
+        return 'unknown'
+    kinds = []
+    for name in ('change_meta_unique_together', 'change_meta_index_together'):
+        fn = _find_func(cls, name)
+        loops = [n for n in ast.walk(fn) if isinstance(n, ast.For)]
+        if not loops:
+            raise ExtractError('no loop in %s' % name)
+        kinds += [classify(l.iter, fn, l.lineno) for l in loops]
+    if 'set' in kinds:
+        return 'set'
+    if 'unknown' in kinds:
+        return 'unknown'
+    return 'sorted' if all(k == 'sorted' for k in kinds) else 'declared'
+
+
 def regenerate(repo, outdir):
     os.makedirs(outdir, exist_ok=True)
     flags = {}
@@ -366,6 +445,16 @@ def regenerate(repo, outdir):
     parts.append('def attrDefaults : List (String × List (String × String)) := ' + lean_list(
         '(%s, %s)' % (lean_str(k), lean_list('(%s, %s)' % (lean_str(a), lean_str(v)) for a, v in ents))
         for k, ents in defaults))
+    titer = extract_together_iteration(repo)
+    flags['together_iteration'] = titer
+    parts.append('')
+    parts.append('/-- how change_meta_unique_together / change_meta_index_together iterate over their entries -/')
+    parts.append('def togetherIteration : String := ' + lean_str(titer))
+    fkattr = extract_fk_reference_attr(repo)
+    flags['fk_reference_attr'] = fkattr
+    parts.append('')
+    parts.append('/-- `related_model._meta.pk.<attr>` in the REFERENCES clause of `build_column_schema` -/')
+    parts.append('def fkReferenceAttr : String := ' + lean_str(fkattr))
     parts += ['', 'end DEvo.Generated', '']
     write_if_changed(os.path.join(outdir, 'Tables.lean'), '\n'.join(parts))
     sk = ['import DEvo.Run.Skel', '', '/-! GENERATED by tools/vlib/extract.py from /repo — do not edit. -/', '',
